@@ -64,15 +64,6 @@ theorem strip_cancel_mark (st : Option Active) :
 theorem strip_open_mark (st : Option Active) :
     strip (Lifecycle.step st .requestOpenSent) = none := rfl
 
-/-- order snapshots an exchange produces for the replica hypothesis: open or inactive only -/
-def Op.exchangeReport : Op → Bool
-  | .snapshot s => match s.state with
-    | .active (.opn _) => true
-    | .inactive _ => true
-    | _ => false
-  | .cancelResp _ _ => true
-  | _ => false
-
 theorem exchangeReport_statesOnly (op : Op) (h : Op.exchangeReport op = true) :
     op.exchangeStatesOnly = true := by
   cases op with
